@@ -189,14 +189,16 @@ struct Exec {
           m.remove_last(); cols.erase(next_index - 1); --next_index; r.mutated = true; r.count("probe.remove_last");
         } else { r.skipped(); continue; }
       } else if (nm == "add" || nm == "mta" || nm == "msa") {
-        long s = pick(op.arg(0)), t = pick(op.arg(1)); if (s < 0 || t < 0 || s == t) { r.skipped(); continue; }
-        if constexpr (COMP) { if (cls[s] == cls[t]) { r.skipped(); continue; } }  // same representative: source is the target
+        long s = pick(op.arg(0)), t = pick(op.arg(1)); if (s < 0 || t < 0) { r.skipped(); continue; }
+        if (op.arg(4, 1) % 8 == 0) s = t;  // a column added to itself
+        if (s == t) r.count("probe.add_column_to_itself");
+        if constexpr (COMP) { if (cls[s] == cls[t]) r.count("probe.add_within_one_class"); }  // same representative: the source is the target
         bool from_range = op.arg(3) % 3 == 0;  // source given as a range of entries living in another matrix
         DCol src = from_range ? gen_col((uint64_t)op.arg(3)) : mcol((unsigned)s);
         // an entry range from outside may only use rows the matrix already knows when it keeps a row container or a row permutation
         if (from_range && (SWAPS || ROWS)) for (int k = 0; k < NR; ++k) if (src[k] && !row_known(k)) src[k] = 0;
         const DCol tgt = mcol((unsigned)t);
-        if constexpr (COMP) { if (model::is_zero(tgt, P)) { r.count("probe.add_into_zero_compressed"); if (r.kf("C09-KF1")) { r.skipped(); continue; } } }
+        if constexpr (COMP) { if (model::is_zero(tgt, P)) r.count("probe.add_into_zero_compressed"); }
         if (model::is_zero(tgt, P)) r.count("probe.target_empty");
         if (model::is_zero(src, P)) r.count("probe.source_empty");
         long c = op.arg(2);  // raw coefficient: 0, 1, p-1, values >= p, negative values
